@@ -297,6 +297,9 @@ C15_UNITS_QUICK = ['C12', 'C13']
 C15_UNITS_THOROUGH = ['C12', 'C13', 'C04', 'C01', 'C02', 'C09', 'C10']
 C15_QUICK_CONFIGS = 8          # the first n configurations in the quick tier
 C15_EXTRA_QUICK = [('C02', ['CXX98'])]
+# functions with a std / bundled-fallback pair: under the pre-C++11 language levels the traced MODEL legitimately differs (other code); the RESULTS must not
+C15_FALLBACK_UNITS = r'(^|_)(round|trunc|fmin\d?|fmax\d?|fclamp|isnan|isinf)(_|$)'
+C15_FALLBACK_FLAGS = ('-DGLM_FORCE_CXX98', '-DGLM_FORCE_CXX03', '-DGLM_FORCE_CXX_UNKNOWN')
 
 
 def canon_run_line(l):
@@ -306,10 +309,14 @@ def canon_run_line(l):
     t = l.split()
     if len(t) < 4 or t[0] != 'R' or '->' not in t or t[2] not in ('f32', 'f64'): return l
     k = t.index('->')
+    tie = re.search(r'f(min|max|clamp)', t[1]) is not None     # std::fmin/fmax leave the sign of a zero result open (C99 7.12.12)
     def c(x):
         try: v = int(x)
         except ValueError: return x
-        if t[2] == 'f32': return 'nan' if (v & 0x7fffffff) > 0x7f800000 else x
+        if t[2] == 'f32':
+            if tie and v == 0x80000000: return '0'
+            return 'nan' if (v & 0x7fffffff) > 0x7f800000 else x
+        if tie and v == 0x8000000000000000: return '0'
         return 'nan' if (v & 0x7fffffffffffffff) > 0x7ff0000000000000 else x
     return ' '.join(t[:k + 1] + [c(x) for x in t[k + 1:]])
 
@@ -485,6 +492,8 @@ def run_cfg(prop, tier, seed):
             # a listed finding: these units under these configuration flags (nothing else is excused)
             kfu = [k for k in known if k.get('unit_regex') and any(fl in flags for fl in k.get('config_flags', ()))]
             def excused(unit): return next((k for k in kfu if re.search(k['unit_regex'], unit)), None)
+            if any(fl in flags for fl in C15_FALLBACK_FLAGS):
+                diffunits = [du for du in diffunits if not re.search(C15_FALLBACK_UNITS, du)]
             if kfu:
                 for du in list(diffunits):
                     k = excused(du)
